@@ -16,14 +16,15 @@ import (
 // RFuncs are the wrappers of the fixed package, unrewritten (real channels, real goroutines).
 type RFuncs struct {
 	Fmap     map[string]func(func(int) int, <-chan int) <-chan int
+	FmapCh   func(func(int) <-chan int, <-chan int) <-chan (<-chan int)
 	Dup      map[string]func(chan int) (<-chan int, <-chan int)
 	JoinCC   map[string]func(chan (<-chan int)) <-chan int
 	JoinSC   map[string]func([]chan int) <-chan int
 	JoinV2   func(c0, c1 chan int) <-chan int
 	JoinV3   func(c0, c1, c2 chan int) <-chan int
 	Pipeline func(f func(int) <-chan int, g func(int) <-chan int) func(int) <-chan int
-	Do2      func(f0, f1 func() (int, error)) (int, int, error)
-	Do3      func(f0, f1, f2 func() (int, error)) (int, int, int, error)
+	Do2      map[string]func(f0, f1 func() (int, error)) (int, int, error)
+	Do3      map[string]func(f0, f1, f2 func() (int, error)) (int, int, int, error)
 	Do4      func(f0, f1, f2, f3 func() (int, error)) (int, int, int, int, error)
 }
 
@@ -74,7 +75,23 @@ func RunReal(F *RFuncs, c Config, r *rand.Rand) (*Outcome, []string) {
 		ins := make([]chan int, len(c.Items))
 		for i := range ins {
 			ins[i] = make(chan int, c.Caps[i])
-			go rproducer(ins[i], c.Items[i], r.Int63())
+			items := c.Items[i]
+			if c.Prefill && (c.Sys == "fmap" || c.Sys == "dup" || c.Sys == "fmapch") {
+				// as much as fits is already in the channel before the call; closed at once when that is everything
+				k := len(items)
+				if k > c.Caps[i] {
+					k = c.Caps[i]
+				}
+				for _, v := range items[:k] {
+					ins[i] <- v
+				}
+				items = items[k:]
+				if len(items) == 0 {
+					close(ins[i])
+					continue
+				}
+			}
+			go rproducer(ins[i], items, r.Int63())
 		}
 		return ins
 	}
@@ -100,6 +117,30 @@ func RunReal(F *RFuncs, c Config, r *rand.Rand) (*Outcome, []string) {
 	case "fmap":
 		ins := mkIns()
 		consume(0, F.Fmap[c.Variant](F3, ins[0]))
+	case "fmapch":
+		res := map[int]chan int{}
+		tagOf := map[<-chan int]int{nil: 999999}
+		for _, v := range c.Items[0] {
+			if v < NilFrom {
+				res[v] = make(chan int)
+				tagOf[res[v]] = v
+			}
+		}
+		ins := mkIns()
+		out := F.FmapCh(func(v int) <-chan int {
+			if ch, ok := res[v]; ok {
+				return ch
+			}
+			return nil
+		}, ins[0])
+		wg.Add(1)
+		go func() {
+			defer wg.Done()
+			for ch := range out {
+				o.Got[0] = append(o.Got[0], tagOf[ch])
+			}
+			o.SawClose[0] = true
+		}()
 	case "dup":
 		ins := mkIns()
 		o1, o2 := F.Dup[c.Variant](ins[0])
@@ -210,9 +251,9 @@ func RunReal(F *RFuncs, c Config, r *rand.Rand) (*Outcome, []string) {
 			o.DoVals = make([]int, c.N)
 			switch c.N {
 			case 2:
-				o.DoVals[0], o.DoVals[1], err = F.Do2(fs[0], fs[1])
+				o.DoVals[0], o.DoVals[1], err = F.Do2[c.Variant](fs[0], fs[1])
 			case 3:
-				o.DoVals[0], o.DoVals[1], o.DoVals[2], err = F.Do3(fs[0], fs[1], fs[2])
+				o.DoVals[0], o.DoVals[1], o.DoVals[2], err = F.Do3[c.Variant](fs[0], fs[1], fs[2])
 			case 4:
 				o.DoVals[0], o.DoVals[1], o.DoVals[2], o.DoVals[3], err = F.Do4(fs[0], fs[1], fs[2], fs[3])
 			}
@@ -345,7 +386,7 @@ func MainR(F *RFuncs) {
 					runCfg(c, reps)
 				}
 			}
-			if sys == "joincc" || sys == "pipeline" {
+			if sys != "do" {
 				for _, c := range PrefillConfigs(sys) {
 					runCfg(c, 4*reps)
 				}
@@ -354,6 +395,9 @@ func MainR(F *RFuncs) {
 				c := RandomConfig(sys, rng, 4, 5, 2)
 				if (sys == "joincc" || sys == "pipeline") && len(c.Items) > 0 && rng.Intn(3) == 0 {
 					c.Prefill, c.OCap = true, len(c.Items)
+				}
+				if (sys == "fmap" || sys == "dup" || sys == "fmapch") && rng.Intn(3) == 0 {
+					c.Prefill, c.Caps[0] = true, 2+rng.Intn(3)
 				}
 				runCfg(c, reps)
 			}
